@@ -24,4 +24,4 @@ class MPENote:
 
     def note_off(self) -> None:
         if self.is_down:
-            self.output_device.note_off(self.note)
+            self.output_device.note_off(self.note, self)
